@@ -298,7 +298,8 @@ func bytesPrefixRange(prefix, start []byte) *pebble.IterOptions {
 	} else {
 		r.LowerBound = []byte{}
 	}
-	r.LowerBound = append(r.LowerBound, start...)
+	// r.LowerBound aliases the caller's prefix: copy it, an append may otherwise write into the caller's buffer
+	r.LowerBound = append(append([]byte{}, r.LowerBound...), start...)
 	return &r
 }
 
